@@ -34,5 +34,13 @@ func (d Directive) Path() (string, error) {
 		return "", errors.New(jerr.IncorrectPath)
 	}
 
+	// A quoted parameter can hold anything. A path with a blank in it is not a
+	// path, and the identifier of an interaction (protocol, method and path,
+	// separated by blanks) would not tell where the path begins: the JSON-RPC
+	// method "a /x" of "/y" and the method "a" of "/x /y" got the same one.
+	if strings.ContainsAny(path, " \t") {
+		return "", errors.New(jerr.IncorrectPath)
+	}
+
 	return path, nil
 }
